@@ -39,6 +39,16 @@ def benign_table():
         rows.append(f"| {k} | {summ} | {'none' if not bad else '**'+' '.join(bad)+'**'} | {why} |")
     hdr="| refactoring | what it does | checks that raise a (false) alarm | obligation reported |\n|---|---|---|---|\n"
     return hdr+"\n".join(rows), ok, len(res)
+def counts_table():
+    import glob
+    rows=[]; tot=0; tw=0
+    for f in sorted(glob.glob('/verif/evidence/C*.json')):
+        d=json.load(open(f)); c=d['coverage']
+        be=c.get('discharged_by_backend') or {}
+        tot+=c['obligations'] if 'obligations' in c else c['discharged']; tw+=d.get('wall_s',0)
+        rows.append(f"| {d['property_id']} | {c.get('obligations',c['discharged'])} | {c['discharged']} | {len(c.get('functions_under_contract',[]))} | {', '.join(f'{k}: {v}' for k,v in sorted(be.items()))} | {d.get('wall_s',0):.0f} s | {len(c.get('bounded') or [])} |")
+    hdr="| check | obligations | discharged | functions under contract | discharged by back end | wall (quick) | bounded stand-ins |\n|---|---|---|---|---|---|---|\n"
+    return hdr+"\n".join(rows)+f"\n\nTotal: {tot} named obligations per full quick run, {tw:.0f} s sequentially on this machine.", tot
 if __name__=='__main__':
     st,c,t=seeded_table(); bt,o,n=benign_table()
     s=open('/verif/DESIGN.md').read()
@@ -46,5 +56,8 @@ if __name__=='__main__':
     s=s[:a]+'<!-- SEEDED-TABLE-BEGIN -->\n'+f"**Must-fail corpus: {c} of {t} seeded changes are caught by the check of the property they break.**\n\n"+st+'\n'+s[b:]
     a=s.index('<!-- BENIGN-TABLE-BEGIN -->'); b=s.index('<!-- BENIGN-TABLE-END -->')
     s=s[:a]+'<!-- BENIGN-TABLE-BEGIN -->\n'+f"**Must-pass corpus: {o} of {n} behaviour-preserving refactorings raise no alarm.**\n\n"+bt+'\n'+s[b:]
+    ct,tot=counts_table()
+    a=s.index('<!-- COUNTS-BEGIN -->'); b=s.index('<!-- COUNTS-END -->')
+    s=s[:a]+'<!-- COUNTS-BEGIN -->\n'+ct+'\n'+s[b:]
     open('/verif/DESIGN.md','w').write(s)
-    print(c,t,o,n)
+    print(c,t,o,n,tot)
